@@ -15,7 +15,7 @@ from lib import vlib
 from lib.vlib import Infra
 
 SPEC = os.path.join(vlib.SPECS, "wallets")
-COUNT = {"quick": (25, 3000), "thorough": (700, 200000)}   # service sequences (14 operations each), decrypt calls
+COUNT = {"quick": (25, 3000), "thorough": (250, 200000)}   # service sequences (14 operations each), decrypt calls
 
 
 def run(res, prop, tier, seed, work, replay=None):
